@@ -96,12 +96,25 @@ func TestC18(t *testing.T) {
 		return p[0], nil
 	}}, &jhttp.BridgeOptions{Server: &jrpc2.ServerOptions{Concurrency: 8}})
 	defer br.Close()
+	var hungOnce sync.Once
 	post := func(body string) *httptest.ResponseRecorder {
 		req := httptest.NewRequest("POST", "http://x/", strings.NewReader(body))
 		req.Header.Set("Content-Type", "application/json")
 		w := httptest.NewRecorder()
-		br.ServeHTTP(w, req)
-		return w
+		// an HTTP request that the bridge never answers must not stall the check
+		done := make(chan struct{})
+		go func() { br.ServeHTTP(w, req); close(done) }()
+		select {
+		case <-done:
+			return w
+		case <-time.After(5 * time.Second):
+			hungOnce.Do(func() {
+				res.Violatef("an HTTP request to the bridge was never answered", map[string]any{"body": body}, "no response after 5s (other requests were in flight on the same bridge)")
+			})
+			hw := httptest.NewRecorder()
+			hw.WriteHeader(599)
+			return hw
+		}
 	}
 	type one struct {
 		body string
@@ -118,6 +131,14 @@ func TestC18(t *testing.T) {
 			who++
 			body, ms := c18Body(rng, who, 1+rng.Intn(4))
 			batch[i] = &one{body: body, ms: ms}
+		}
+		if out := outPath(); out != "" { // if the process dies in this round, these concurrent bodies are the replay
+			var bodies []string
+			for _, o := range batch {
+				bodies = append(bodies, o.body)
+			}
+			b, _ := json.Marshal(map[string]any{"concurrent_http_bodies": bodies})
+			writeFileQuiet(out+".progress", b)
 		}
 		var wg sync.WaitGroup
 		for _, o := range batch {
@@ -691,9 +712,14 @@ func TestC19(t *testing.T) {
 		}
 		return "ok:" + rsp.ResultString()
 	}
-	for i := 0; i < pick(60, 600); i++ {
+	bg := ctx
+	nviol := len(res.Violations)
+	for i := 0; i < pick(60, 600) && len(res.Violations) == nviol; i++ {
 		method := []string{"echo", "fail", "nope"}[rng.Intn(3)]
 		params := []any{nil, []int{i}, map[string]int{"k": i}}[rng.Intn(3)]
+		// a request that is never answered must not stall the check: every operation has a deadline
+		ctx, cancelOp := context.WithTimeout(bg, 3*time.Second)
+		defer cancelOp()
 		switch rng.Intn(3) {
 		case 0:
 			a := describe(hcli.Call(ctx, method, params))
@@ -711,6 +737,9 @@ func TestC19(t *testing.T) {
 			}
 		case 2:
 			specs := []jrpc2.Spec{{Method: method, Params: params}, {Method: "echo", Params: []int{1}, Notify: true}, {Method: "echo", Params: []int{2}}}
+			if i%2 == 0 { // the notification first
+				specs = []jrpc2.Spec{{Method: "echo", Params: []int{1}, Notify: true}, {Method: method, Params: params}, {Method: "echo", Params: []int{2}}, {Method: "nope"}}
+			}
 			r1, e1 := hcli.Batch(ctx, specs)
 			r2, e2 := loc.Client.Batch(ctx, specs)
 			res.Case(fmt.Sprintf("http-batch/%s/%v", method, params), true, method)
